@@ -32,6 +32,7 @@ package deviceshare
 
 import (
 	"context"
+	"encoding/json"
 	"fmt"
 	"sort"
 	"strings"
@@ -48,6 +49,7 @@ import (
 
 	apiext "github.com/koordinator-sh/koordinator/apis/extension"
 	schedulingv1alpha1 "github.com/koordinator-sh/koordinator/apis/scheduling/v1alpha1"
+	"github.com/koordinator-sh/koordinator/pkg/util/bitmask"
 	kit "github.com/koordinator-sh/koordinator/pkg/verifkit"
 )
 
@@ -72,8 +74,9 @@ var c07Types = []schedulingv1alpha1.DeviceType{c07GPU, c07RDMA, c07FPGA}
 // the plugin (built once per process with the package's own suite; every case installs a fresh cache)
 
 var (
-	c07Once sync.Once
-	c07Pl   *Plugin
+	c07Once      sync.Once
+	c07Pl        *Plugin
+	c07NodeObjs  = map[string]*corev1.Node{} // the Node objects Plugin.Reserve gets from the snapshot; labels are set per case
 )
 
 func c07Plugin(t *testing.T) *Plugin {
@@ -81,6 +84,9 @@ func c07Plugin(t *testing.T) *Plugin {
 		nodes := []*corev1.Node{
 			{ObjectMeta: metav1.ObjectMeta{Name: "n0"}},
 			{ObjectMeta: metav1.ObjectMeta{Name: "n1"}},
+		}
+		for _, n := range nodes {
+			c07NodeObjs[n.Name] = n
 		}
 		suit := newPluginTestSuit(t, nodes)
 		p, err := suit.proxyNew(context.TODO(), getDefaultArgs(), suit.Framework)
@@ -125,6 +131,16 @@ type c07Node struct {
 	// pod does not exist: the size is a hardware constant that koordlet reads from the driver, a MIG
 	// re-partition needs an idle GPU, and after a card swap / reboot no pod of the old card is left.
 	memBytes, memResize bool
+	partCase            bool // the case has partitioned nodes and pods with partition specs
+	// GPU partitions: part = "" (none), "label" (node label gpu-model of a model with a built-in table) or
+	// "annotation" (table annotated on the Device object). honor = the node says partitions must be honored
+	// (label gpu-partition-policy=Honor, put on the Node and on the Device object alike). table: size -> minor
+	// sets; mixedScore[size] = the partitions of that size do not all have the same allocation score.
+	part       string
+	honor      bool
+	table      map[int][][]int
+	mixedScore map[int]bool
+	tableJSON  string
 }
 
 type c07Key struct {
@@ -144,9 +160,15 @@ func c07QB(v int64) resource.Quantity { return *resource.NewQuantity(v, resource
 
 var c07MemPool = []int64{16 << 30, 85198045184, 15843721216, 24 << 30, 1000003, 8 << 30}
 
-func c07GenNode(r *kit.Rand, name string, memBytes, memResize bool) *c07Node {
-	n := &c07Node{memBytes: memBytes, memResize: memResize, name: name, obj: &corev1.Node{ObjectMeta: metav1.ObjectMeta{Name: name}}, typeGone: map[schedulingv1alpha1.DeviceType]bool{}}
+func c07GenNode(r *kit.Rand, name string, memBytes, memResize, partitioned bool) *c07Node {
+	n := &c07Node{partCase: partitioned, memBytes: memBytes, memResize: memResize, name: name, obj: c07NodeObjs[name], typeGone: map[schedulingv1alpha1.DeviceType]bool{}}
+	n.obj.Labels = nil
 	n.topo = r.Pct(50)
+	if partitioned && r.Pct(80) {
+		n.part = kit.Pick(r, []string{"label", "annotation"})
+		n.honor = r.Pct(40)
+		n.topo = r.Pct(75)
+	}
 	n.vf = n.topo && r.Pct(60)
 	n.gpuMem = kit.Pick(r, c07MemPool)
 	ngpu := kit.Pick(r, []int{0, 1, 1, 2, 2, 3, 4, 4, 8})
@@ -154,6 +176,10 @@ func c07GenNode(r *kit.Rand, name string, memBytes, memResize bool) *c07Node {
 	nfpga := kit.Pick(r, []int{0, 0, 0, 1, 2})
 	if ngpu+nrdma+nfpga == 0 {
 		ngpu = 2
+	}
+	if n.part != "" {
+		ngpu = kit.Pick(r, []int{4, 4, 6, 8, 8, 8})
+		n.buildPartitions(r, ngpu)
 	}
 	add := func(t schedulingv1alpha1.DeviceType, cnt int, firstMinor int32, res func() corev1.ResourceList) {
 		half := (cnt + 1) / 2
@@ -177,6 +203,63 @@ func c07GenNode(r *kit.Rand, name string, memBytes, memResize bool) *c07Node {
 	return n
 }
 
+// buildPartitions sets up the partition table of a partitioned node. "label": the node carries gpu-model
+// H100/H800/H20 and the table is koordinator's built-in one for these models (read from the exported
+// variable, it is configuration data); "annotation": a table for the node's own GPU count is annotated on the
+// Device object - singles, aligned pairs, aligned quads, all eight; in a third of them the pairs come in two
+// allocation-score classes.
+func (n *c07Node) buildPartitions(r *kit.Rand, ngpu int) {
+	n.table = map[int][][]int{}
+	n.mixedScore = map[int]bool{}
+	n.obj.Labels = map[string]string{}
+	if n.honor {
+		n.obj.Labels[apiext.LabelGPUPartitionPolicy] = string(apiext.GPUPartitionPolicyHonor)
+	}
+	if n.part == "label" {
+		n.obj.Labels[apiext.LabelGPUModel] = kit.Pick(r, []string{"H100", "H800", "H20"})
+		if r.Bool() {
+			n.obj.Labels[apiext.LabelGPUVendor] = apiext.GPUVendorNVIDIA
+		}
+		for size, groups := range GPUPartitionIndexOfNVIDIAHopper {
+			scores := map[int]bool{}
+			for _, g := range groups {
+				for _, pt := range g.Partitions {
+					n.table[size] = append(n.table[size], append([]int(nil), pt.Minors...))
+					scores[pt.AllocationScore] = true
+				}
+			}
+			n.mixedScore[size] = len(scores) > 1
+		}
+		return
+	}
+	table := apiext.GPUPartitionTable{}
+	add := func(size int, minors []int, score int) {
+		table[size] = append(table[size], apiext.GPUPartition{Minors: minors, GPULinkType: apiext.GPUNVLink, AllocationScore: score})
+		n.table[size] = append(n.table[size], minors)
+	}
+	for size := 1; size <= ngpu; size *= 2 {
+		for first := 0; first+size <= ngpu; first += size {
+			var ms []int
+			for m := first; m < first+size; m++ {
+				ms = append(ms, m)
+			}
+			score := 1
+			if size == 2 {
+				score = 2
+			}
+			add(size, ms, score)
+		}
+	}
+	if r.Pct(33) {
+		for first := 1; first+2 <= ngpu; first += 2 {
+			add(2, []int{first, first + 1}, 1)
+		}
+		n.mixedScore[2] = true
+	}
+	b, _ := json.Marshal(table)
+	n.tableJSON = string(b)
+}
+
 func (n *c07Node) devsOf(t schedulingv1alpha1.DeviceType) []*c07Dev {
 	var out []*c07Dev
 	for _, d := range n.devs {
@@ -192,6 +275,12 @@ func (d *c07Dev) reported(n *c07Node) bool { return d.present && !n.typeGone[d.t
 // buildCR renders the node model as the Device object koordlet would report.
 func (n *c07Node) buildCR() *schedulingv1alpha1.Device {
 	cr := &schedulingv1alpha1.Device{ObjectMeta: metav1.ObjectMeta{Name: n.name}}
+	if n.part != "" && n.honor {
+		cr.Labels = map[string]string{apiext.LabelGPUPartitionPolicy: string(apiext.GPUPartitionPolicyHonor)}
+	}
+	if n.tableJSON != "" {
+		cr.Annotations = map[string]string{apiext.AnnotationGPUPartitions: n.tableJSON}
+	}
 	for _, d := range n.devs {
 		if !d.reported(n) {
 			continue
@@ -399,6 +488,7 @@ type c07Want struct {
 }
 
 type c07Shape struct {
+	partSpec *apiext.GPUPartitionSpec // the pod's gpu-partition-spec annotation, if any
 	memUnit  string // unit of GPU memory the request names: "bytes", "ratio" (whole GPUs name ratio 100), "" without GPU
 	class    string
 	requests corev1.ResourceList
@@ -427,6 +517,31 @@ func c07GPUShape(r *kit.Rand, n *c07Node, sh *c07Shape) {
 	w := &c07Want{count: 1}
 	sh.want[c07GPU] = w
 	sh.memUnit = "ratio"
+	if n.partCase {
+		// partitioned case (the node itself may or may not carry a table): whole-GPU requests of the partition
+		// sizes, with or without the pod's own partition spec
+		if r.Pct(50) {
+			sh.partSpec = &apiext.GPUPartitionSpec{AllocatePolicy: kit.Pick(r, []apiext.GPUPartitionAllocatePolicy{apiext.GPUPartitionAllocatePolicyRestricted, apiext.GPUPartitionAllocatePolicyBestEffort, ""})}
+			sh.class += "pspec-" + string(sh.partSpec.AllocatePolicy) + "-"
+		}
+		if r.Pct(65) {
+			cnt = int64(kit.Pick(r, []int{1, 2, 2, 2, 4, 4, 8, 3}))
+			w.count, w.per = int(cnt), whole
+			switch r.Intn(3) {
+			case 0:
+				sh.class += "nvidia-N"
+				sh.requests[apiext.ResourceNvidiaGPU] = c07Q(cnt)
+			case 1:
+				sh.class += "koordgpu-100N"
+				sh.requests[apiext.ResourceGPU] = c07Q(100 * cnt)
+			default:
+				sh.class += "core+ratio-100N"
+				sh.requests[apiext.ResourceGPUCore] = c07Q(100 * cnt)
+				sh.requests[apiext.ResourceGPUMemoryRatio] = c07Q(100 * cnt)
+			}
+			return
+		}
+	}
 	wb := 0
 	if n.memBytes {
 		wb = 14
@@ -638,6 +753,13 @@ func c07NewPodObj(p *c07Pod, sh *c07Shape) *corev1.Pod {
 	}
 	if sh.joint != nil {
 		_ = apiext.SetDeviceJointAllocate(pod, sh.joint)
+	}
+	if sh.partSpec != nil {
+		b, _ := json.Marshal(sh.partSpec)
+		if pod.Annotations == nil {
+			pod.Annotations = map[string]string{}
+		}
+		pod.Annotations[apiext.AnnotationGPUPartitionSpec] = string(b)
 	}
 	return pod
 }
@@ -928,7 +1050,7 @@ func c07Eligible(n *c07Node, t schedulingv1alpha1.DeviceType, per corev1.Resourc
 		if !healthy[c07DevKey{t, m}] {
 			continue
 		}
-		if required.Len() > 0 && !required.Has(m) {
+		if required != nil && !required.Has(m) {
 			continue
 		}
 		free := func(name corev1.ResourceName) int64 {
